@@ -161,6 +161,21 @@ theorem fill_holes_superset (g : Adj) (univ s : List Nat) (n : Nat) :
     have := (space_split_cover g (univ.filter fun y => !s.contains y) x).2 ⟨comp, hc', hxc⟩
     simpa using this
 
+/-- **`fill_holes_smaller_than`** adds exactly the components of the complement of at most `k` cells. -/
+theorem fill_holes_smaller_spec (g : Adj) (univ s : List Nat) (k x : Nat) :
+    x ∈ fillHolesSmaller g univ s k ↔
+      x ∈ s ∨ ∃ comp ∈ splitAll g (univ.filter fun y => !s.contains y), comp.length ≤ k ∧ x ∈ comp := by
+  unfold fillHolesSmaller
+  rw [mem_norm, List.mem_append, List.mem_flatten]
+  constructor
+  · rintro (h | ⟨c, hc, hx⟩)
+    · exact .inl h
+    · have := List.mem_filter.1 hc
+      exact .inr ⟨c, this.1, by simpa using this.2, hx⟩
+  · rintro (h | ⟨c, hc, hk, hx⟩)
+    · exact .inl h
+    · exact .inr ⟨c, List.mem_filter.2 ⟨hc, by simpa using hk⟩, hx⟩
+
 /-! Non-vacuity: a path 0–1–2 and an isolated cell 5. -/
 example : splitAll [(0, [1]), (1, [0, 2]), (2, [1]), (5, [])] [0, 1, 2, 5] = [[0, 1, 2], [5]] := by decide
 
